@@ -87,7 +87,7 @@ Definition nk : ident := [107].
    while w < 2:
        for k in range(1 - w):
            z = 5             -- z is hoisted twice: to before the `for` (inside the while body) and to a global;
-       w = w + 1                the inner hoisted declaration becomes `z = 0;`, executed on every iteration
+       w = w + 1                the inner hoisted declaration is dropped (it used to become `z = 0;` on every iteration)
    mon.write(z)                                                                              *)
 Definition reinit : pprog :=
   {| p_pre := [ PAssign nw (mk 1 TyInt true []);
@@ -110,7 +110,7 @@ Definition reinit_sem (id : Z) (args : list (option val)) : option val :=
 (* w = 0
    while True:
        if w == 0:
-           z = 5             -- z is a local of loop(), declared `int z = 0;` on every pass
+           z = 5             -- z is hoisted to the body level of the main loop: a sketch global `int z = 0;`
        w = w + 1
        mon.write(z)                                                                          *)
 Definition looplocal : pprog :=
